@@ -1,6 +1,6 @@
 #!/bin/bash
 # seed_import.sh <P> <X|Y> <suffix>   -- copy a sub-agent's change into /verif/seeded/<P>_<suffix>, confirm it (seed_verify.sh), write meta.json
-P=$1; V=$2; S=$3; SRC=/tmp/seedwt/$P.out/$V; DST=/verif/seeded/${P}_$S
+P=$1; V=$2; S=$3; SRC=${SEED_SRC:-/tmp/seedwt/$P.out}/$V; DST=/verif/seeded/${P}_$S
 [ -f $SRC/patch.diff ] || { echo "no $SRC/patch.diff"; exit 3; }
 mkdir -p $DST; cp $SRC/patch.diff $SRC/demo.diff $DST/; cp $SRC/notes.md $DST/notes.md 2>/dev/null
 bash /verif/tools/seed_verify.sh $DST > $DST/verify.log 2>&1
